@@ -54,7 +54,6 @@ var (
 	nodeIface = reflect.TypeOf((*sast.Node)(nil)).Elem()
 	exprIface = reflect.TypeOf((*sast.Expression)(nil)).Elem()
 	treeType  = reflect.TypeOf((*sast.Tree)(nil))
-	posType   = reflect.TypeOf((*sast.Position)(nil))
 )
 
 // fieldMode classifies a struct field: "one" (a child), "list" (children), "xref" (the expanded tree
@@ -115,7 +114,6 @@ func writeSchema(out, repo string) error {
 		return err
 	}
 	var missing []string
-	declared := map[string]bool{}
 	for _, d := range file.Decls {
 		gd, ok := d.(*ast.GenDecl)
 		if !ok || gd.Tok != token.TYPE {
@@ -124,7 +122,6 @@ func writeSchema(out, repo string) error {
 		for _, sp := range gd.Specs {
 			ts := sp.(*ast.TypeSpec)
 			if _, ok := ts.Type.(*ast.StructType); ok {
-				declared[ts.Name.Name] = true
 				if !listed[ts.Name.Name] && !notKinds[ts.Name.Name] {
 					missing = append(missing, ts.Name.Name)
 				}
